@@ -32,7 +32,11 @@ MANIFEST = {
             'power on/off for light/group/location/all) and every transmitted '
             'argument is compared with an exact rational oracle (tolerance half '
             'a raw unit); scripts of 2-6 settings under changing unit modes with '
-            'recurring numbers are checked command by command. Grids are sampled, not all register combinations.',
+            'recurring numbers are checked command by command. Grids are sampled, not all register combinations.'
+            ' The delay requested from the clock before a command is chec'
+            'ked as well: non-negative, equal to the stated span in every'
+            ' unit mode, literal, braced, negated or carried through a un'
+            'it switch.',
     'note': 'Trusted: the rational oracle (bvf/oracle.py) and the simulated '
             'lifxlan devices; set_zone_color(start,end) is taken as [start,end).',
 }
